@@ -73,3 +73,21 @@ pub fn generate(seed: u64, n: usize, bias: u64, out: &mut Vec<String>, stats: &m
         out.push(line);
     }
 }
+
+/// replay: tokens = contract role idmax idw version | op tokens | op tokens ...
+pub fn replay(args: &[String]) -> String {
+    let mut groups: Vec<Vec<u64>> = vec![Vec::new()];
+    for a in args {
+        if a == "|" {
+            groups.push(Vec::new());
+        } else if let Ok(x) = a.parse::<u64>() {
+            groups.last_mut().unwrap().push(x);
+        }
+    }
+    let hdr = groups.remove(0);
+    if hdr[3] == 4 {
+        c32::replay_case(&hdr, &c32::ops_from_tokens(&groups))
+    } else {
+        c16::replay_case(&hdr, &c16::ops_from_tokens(&groups))
+    }
+}
